@@ -538,6 +538,7 @@ def run(ctx):
     r3(ctx, fs)
     r4(ctx, fs)
     r5(ctx, fs)
+    r6(ctx, fs)
     r7(ctx, fs)
     # R8 / R9: the last hop of the routing chain, core::<rel> -> theory constructor of the same relation (shared with C11.R6 and C13.R5)
     from .C11 import r6 as arith_routes
@@ -545,6 +546,68 @@ def run(ctx):
     arith_routes(ctx, fs, rid='C16.R8')
     bool_routes(ctx, fs, rid='C16.R9')
 
+
+
+# ---- R6: scanner automata ------------------------------------------------------------------------------------------------------
+
+def r6(ctx, fs):
+    rid = 'C16.R6'
+    ctx.rule(rid, 'the scanning loops of lexer::next are the automata of the language: a block comment ends at the FIRST "*/" (after any run of stars) and only there; a string literal ends at the first '
+                  'unescaped double quote; end of input (and a raw newline in a string) inside them is an error. Extracted from the CFG over character classes and compared with the reference DFA '
+                  'by exhaustive product exploration', floor=2)
+    from .. import scan
+    f = fs.fn('riddle::lexer::next')
+    A = scan.Automaton(f)
+
+    def loop_under(path):
+        """the while-loop reached through the nested case labels `path` (character codes)."""
+        cur = [f.body]
+        for code in path:
+            nxt = []
+            for root in cur:
+                for n in walk(root):
+                    if n.get('k') == 'CaseStmt' and n.get('case') == code:
+                        nxt.append(n)
+                        break
+            if not nxt:
+                return None
+            cur = nxt
+        for n in walk(cur[0]):
+            if n.get('k') in ('WhileStmt', 'DoStmt', 'ForStmt'):
+                return n
+        return None
+
+    def first_read(loop):
+        for n in walk(loop):
+            if n.get('k') == 'CXXMemberCallExpr' and n.get('callee_name') == 'riddle::lexer::next_char':
+                return n
+        return None
+    STAR, SLASH, QUOTE, BSL, CR, NL = 42, 47, 34, 92, 13, 10
+    specs = [
+        ('block comment', [SLASH, STAR], [STAR, SLASH, scan.OTHER, scan.EOF],
+         lambda q, a: 'REJ' if a == scan.EOF else ({'q0': {STAR: 'q1'}, 'q1': {STAR: 'q1', SLASH: 'ACC'}}[q].get(a, 'q0')),
+         'a block comment must end at the first "*/" - also after a run of stars ("**/") - and nowhere else; end of input inside it is an error'),
+        ('string literal', [QUOTE], [QUOTE, BSL, CR, NL, scan.OTHER, scan.EOF],
+         lambda q, a: ({'q0': {QUOTE: 'ACC', BSL: 'q1', CR: 'REJ', NL: 'REJ', scan.EOF: 'REJ'}, 'q1': {}}[q].get(a, 'q0')),
+         'a string literal ends at the first double quote that is not escaped by a backslash; a raw newline or the end of input inside it is an error'),
+    ]
+    for name, path, alphabet, delta, what in specs:
+        loop = loop_under(path)
+        rd = first_read(loop) if loop is not None else None
+        if rd is None:
+            raise AnalysisBroken('%s: the scanning loop of the %s (case %s) was not found' % (f.id, name, '/'.join(chr(c) for c in path)))
+        start = A.node_of(rd)
+        problems, n_states = A.explore(start, alphabet, delta, 'q0', {'ACC'}, {'REJ'})
+        kinds = sorted({k for k, _, _ in problems})
+        ctx.instance(rid, [f.id, name], {'construct': name, 'site': short(loop.get('loc')), 'alphabet': [chr(a) if 0 < a < 127 else ('other' if a == scan.OTHER else 'EOF') for a in alphabet],
+                                         'product_states_explored': n_states, 'disagreements': kinds})
+        if problems:
+            expl = {'error-early': 'an input the language accepts is reported as an error (the terminator was missed)',
+                    'accepts-rejected': 'a truncated / malformed input is accepted',
+                    'ends-early': 'the construct is ended before its terminator'}
+            k, q, t = problems[0]
+            ctx.finding(rid, f.id, name, 'lexer::next, %s: the scanner is not the automaton of the language - %s (reference state %s at %s). %s' % (name, '; '.join(expl[x] for x in kinds), q, short(t.get('loc')), what),
+                        node=loop)
 
 # ---- R3 / R4b: FIRST sets by abstract interpretation of the non-terminals over the symbol of the current token -----------------
 
